@@ -111,8 +111,8 @@ func (h *history) onFeedback(ts time.Time, counter uint64, ack acknowledgement) 
 // onTWCCFeedback maps an acknowledgement to the counter by TWCC sequence number
 // and then calls onFeedback.
 func (h *history) onTWCCFeedback(ts time.Time, ack acknowledgement) (time.Duration, bool) {
-	h.lock.RLock()
-	defer h.lock.RUnlock()
+	h.lock.Lock()
+	defer h.lock.Unlock()
 
 	counter, ok := h.twccToCounter[ack.sequenceNumber]
 	if !ok {
@@ -126,8 +126,8 @@ func (h *history) onTWCCFeedback(ts time.Time, ack acknowledgement) (time.Durati
 // onCCFBFeedback maps an acknowledgement to the counter by ssrc and sequence
 // number and then calls onFeedback.
 func (h *history) onCCFBFeedback(ts time.Time, ssrc uint32, ack acknowledgement) (time.Duration, bool) {
-	h.lock.RLock()
-	defer h.lock.RUnlock()
+	h.lock.Lock()
+	defer h.lock.Unlock()
 
 	counter, ok := h.ssrcSeqNrToCounter[ssrcSequenceNumber{
 		ssrc:           ssrc,
